@@ -325,3 +325,29 @@ FAMILIES = [
            shard=10, case_timeout=60),
 ]
 FAMILIES[0].post_model = post_threads
+
+
+# ---- dispatcher/worker scripts: an action created in one context is run in another -----------------------
+from lib import oplists
+
+
+def gen_mt(rng, tier):
+    return [oplists.gen_script_mt(rng, n_ops=rng.randrange(8, 26)) for _ in range(60 if tier == "quick" else 1200)]
+
+
+def oracle_mt(case, obs):
+    return oracles.note_failures(obs, ("probe_mismatch", "logging_raised", "foreign_exception", "hang", "thread_failed"))
+
+
+def nontrivial_mt(case, obs):
+    started = {}
+    for c, o in case["ops"]:
+        if o[0] == "start":
+            started[o[1]] = c
+    cross = any(o[0] == "enter" and started.get(o[1]) != c for c, o in case["ops"])
+    return json.dumps(case["ops"]) if cross else None
+
+
+FAMILIES.append(Family("dispatch", gen_mt, oplists.run_case, oplists.model_expr, oplists.model_obs, oracle_mt, nontrivial_mt,
+                       imports=["Model.Core", "Model.Prog"], project=oplists.project, describe=oplists.describe,
+                       shard=20, coq_shard=60, case_timeout=60))
